@@ -35,7 +35,7 @@ namespace {
 
 enum Kind { K_CREATE, K_DESTROY, K_MOVE, K_RESET, K_READ, K_COUNT, K_VALUE, K_LINGER, K_ALIVE, K_CHURN };
 const char* const kNames[] = {"create", "destroy", "move", "reset", "read", "count", "value", "linger", "for_each_alive", "private_instance", nullptr};
-enum Subject { S_ADDER, S_SUMMER, S_MAXER, S_MINER, S_ETL, S_CETL };
+enum Subject { S_ADDER, S_SUMMER, S_MAXER, S_MINER, S_ETL, S_CETL, S_ETLL };  // S_ETLL: EnumerableThreadLocal<Cell, Leaky = true> (the flavour the counters build on)
 
 struct Cell { uint64_t v; uint64_t magic; Cell() : v(0), magic(0xC0FFEEull) {} };
 struct Cell16 { uint64_t v = 0; uint64_t w = 0; uint64_t pad[2] = {0, 0}; };  // 32 bytes: 4 instances per 128-byte line
@@ -44,6 +44,7 @@ typedef babylon::ConcurrentSummer Summer;
 typedef babylon::ConcurrentMaxer Maxer;
 typedef babylon::ConcurrentMiner Miner;
 typedef babylon::EnumerableThreadLocal<Cell> ETL;
+typedef babylon::EnumerableThreadLocal<Cell, true> ETLL;
 typedef babylon::CompactEnumerableThreadLocal<Cell16, 1> CETL;
 
 constexpr int NINST = 6;
@@ -80,6 +81,7 @@ template <typename F> auto with(int subject, void* o, F&& f) {
     case S_MAXER: return f((Maxer*)o);
     case S_MINER: return f((Miner*)o);
     case S_ETL: return f((ETL*)o);
+    case S_ETLL: return f((ETLL*)o);
     default: return f((CETL*)o);
   }
 }
@@ -90,6 +92,7 @@ void* slot_of(Summer* a) { return &a->_storage.local(); }
 void* slot_of(Maxer* a) { return &a->_storage.local(); }
 void* slot_of(Miner* a) { return &a->_storage.local(); }
 void* slot_of(ETL* a) { return &a->local(); }
+void* slot_of(ETLL* a) { return &a->local(); }
 void* slot_of(CETL* a) { return &a->local(); }
 size_t slot_size(int subject) { return subject == S_ADDER ? 8 : 16; }
 
@@ -97,7 +100,9 @@ void do_count(Adder* a, int64_t v) { *a << v; }
 void do_count(Summer* a, int64_t v) { *a << (ssize_t)v; }
 void do_count(Maxer* a, int64_t v) { *a << (ssize_t)v; }
 void do_count(Miner* a, int64_t v) { *a << (ssize_t)v; }
-void do_count(ETL* a, int64_t v) { Cell& c = a->local(); if (c.magic != 0xC0FFEEull) fail("unconstructed", "local", "local() returned a slot whose constructor never ran"); c.v = c.v + (uint64_t)v; }
+template <typename E> void do_count_etl(E* a, int64_t v) { Cell& c = a->local(); if (c.magic != 0xC0FFEEull) fail("unconstructed", "local", "local() returned a slot whose constructor never ran"); c.v = c.v + (uint64_t)v; }
+void do_count(ETL* a, int64_t v) { do_count_etl(a, v); }
+void do_count(ETLL* a, int64_t v) { do_count_etl(a, v); }
 void do_count(CETL* a, int64_t v) { Cell16& c = a->local(); c.v = c.v + (uint64_t)v; c.w = c.w + 1; }
 
 // a callback range must be a range
@@ -116,15 +121,18 @@ template <typename M> Reading read_ext(const M* a) {
 }
 Reading do_read(const Maxer* a) { return read_ext(a); }
 Reading do_read(const Miner* a) { return read_ext(a); }
-Reading do_read(const ETL* a) {
+template <typename E> Reading do_read_etl(const E* a) {
   Reading r;
   a->for_each([&](const Cell* b, const Cell* e) { check_range(b, e, "for_each"); for (; b != e; ++b) { if (b->magic != 0xC0FFEEull) fail("unconstructed", "for_each", "for_each visited a slot whose constructor never ran"); r.sum += (int64_t)b->v; } });
   return r;
 }
+Reading do_read(const ETL* a) { return do_read_etl(a); }
+Reading do_read(const ETLL* a) { return do_read_etl(a); }
 Reading do_read(const CETL* a) { Reading r; a->for_each([&](const Cell16& c) { r.sum += (int64_t)c.v; r.num += c.w; }); return r; }
 
 bool is_ext(int s) { return s == S_MAXER || s == S_MINER; }
-bool movable(int s) { return s == S_ADDER || s == S_ETL || s == S_CETL; }
+bool movable(int s) { return s == S_ADDER || s == S_ETL || s == S_CETL || s == S_ETLL; }
+bool is_etl(int s) { return s == S_ETL || s == S_ETLL; }
 bool has_num(int s) { return s == S_SUMMER || s == S_CETL; }
 
 // ---------------------------------------------------------------------------
@@ -160,7 +168,7 @@ template <typename T> const void* storage_slot(const babylon::ConcurrentVector<T
 // for_each visits every slot ever used; for_each_alive exactly the live ones
 void expect_enumeration(int k, const char* where, bool nonconst_alive) {
   Inst& I = S->inst[k];
-  if (!I.obj || (S->subject != S_ETL && S->subject != S_CETL)) return;
+  if (!I.obj || (!is_etl(S->subject) && S->subject != S_CETL)) return;
   std::set<const void*> all, alive, expect;
   size_t dup = 0;
   // Known defect (see report): the unclipped for_each_alive overloads
@@ -168,20 +176,23 @@ void expect_enumeration(int k, const char* where, bool nonconst_alive) {
   // its Storage* member is not const-propagated) index the block table with
   // live thread ids beyond this instance's storage size. Default runs avoid
   // that call; --mode 8 makes it and reports class "oob".
-  size_t size = S->subject == S_ETL ? ((ETL*)I.obj)->_storage.size() : ((CETL*)I.obj)->_storage->_storage.size();
+  size_t size = S->subject == S_ETL ? ((ETL*)I.obj)->_storage.size() : S->subject == S_ETLL ? ((ETLL*)I.obj)->_storage.size() : ((CETL*)I.obj)->_storage->_storage.size();
   bool beyond = false;
   for (auto& kv : S->live_tid16) if ((size_t)kv.second >= size) beyond = true;
   bool unclipped = nonconst_alive || S->subject == S_CETL;
   bool skip_alive = beyond && unclipped && !S->empty_alive;
   if (skip_alive) probe("for_each_alive_skipped_known_oob");
-  if (S->subject == S_ETL) {
-    ETL* e = (ETL*)I.obj;
-    ((const ETL*)e)->for_each([&](const Cell* b, const Cell* en) { check_range(b, en, "for_each"); for (; b != en; ++b) dup += !all.insert(b).second; });
+  auto etl_part = [&](auto* e) {
+    typedef std::remove_pointer_t<decltype(e)> E;
+    ((const E*)e)->for_each([&](const Cell* b, const Cell* en) { check_range(b, en, "for_each"); for (; b != en; ++b) dup += !all.insert(b).second; });
     if (skip_alive) {}
     else if (nonconst_alive) e->for_each_alive([&](Cell* b, Cell* en) { check_range(b, en, "for_each_alive"); for (; b != en; ++b) dup += !alive.insert(b).second; });
-    else ((const ETL*)e)->for_each_alive([&](const Cell* b, const Cell* en) { check_range(b, en, "for_each_alive"); for (; b != en; ++b) dup += !alive.insert(b).second; });
+    else ((const E*)e)->for_each_alive([&](const Cell* b, const Cell* en) { check_range(b, en, "for_each_alive"); for (; b != en; ++b) dup += !alive.insert(b).second; });
     for (auto& kv : S->live_tid16) if (const void* a = storage_slot(e->_storage, kv.second)) expect.insert(a);
-  } else {
+  };
+  if (S->subject == S_ETL) etl_part((ETL*)I.obj);
+  else if (S->subject == S_ETLL) etl_part((ETLL*)I.obj);
+  else {
     CETL* e = (CETL*)I.obj;
     ((const CETL*)e)->for_each([&](const Cell16& c) { dup += !all.insert(&c).second; });
     if (skip_alive) {}
@@ -210,6 +221,7 @@ void create(int k) {
     case S_MAXER: I.obj = new Maxer(); break;
     case S_MINER: I.obj = new Miner(); break;
     case S_ETL: I.obj = new ETL(); break;
+    case S_ETLL: I.obj = new ETLL(); break;
     default: I.obj = new CETL(); break;
   }
   I.epoch++; I.adds.clear(); I.local_addr.clear(); I.addr_owner.clear(); I.used.clear();
@@ -271,8 +283,8 @@ void note_local(int k, void* addr) {
 // the calling thread now owns a babylon thread id of the subject's tag type
 void note_thread_id() {
   int me = tid();
-  if ((S->subject == S_ETL || S->subject == S_CETL) && !S->live_tid16.count(me)) {
-    int id = S->subject == S_ETL ? (int)babylon::ThreadId::current_thread_id<Cell>().value : (int)babylon::ThreadId::current_thread_id<CETL::CacheLine>().value;
+  if ((is_etl(S->subject) || S->subject == S_CETL) && !S->live_tid16.count(me)) {
+    int id = S->subject == S_ETL ? (int)babylon::ThreadId::current_thread_id<Cell>().value : S->subject == S_ETLL ? (int)babylon::LeakyThreadId::current_thread_id<Cell>().value : (int)babylon::ThreadId::current_thread_id<CETL::CacheLine>().value;
     for (auto& kv : S->live_tid16) if (kv.second == id) fail("shared-local", "thread-id", "live threads T%d and T%d have the same babylon thread id %d", kv.first, me, id);
     S->live_tid16[me] = id;
   }
@@ -323,6 +335,7 @@ void worker_churn(int64_t v) {
     case S_MAXER: churn_one<Maxer>(v); break;
     case S_MINER: churn_one<Miner>(v); break;
     case S_ETL: churn_one<ETL>(v); break;
+    case S_ETLL: churn_one<ETLL>(v); break;
     default: churn_one<CETL>(v); break;
   }
 }
@@ -402,7 +415,7 @@ int inst_of(const Op& op) { return (int)(std::max<int64_t>(op.a, 0) % NINST); }
 
 void run(const Plan& p) {
   S = new State();
-  S->subject = (int)std::min<int64_t>(std::max<int64_t>(p.get("subject", 0), 0), 5);
+  S->subject = (int)std::min<int64_t>(std::max<int64_t>(p.get("subject", 0), 0), 6);
   S->maxer_reader = p.get("maxer_reader", 0) != 0;
   S->empty_alive = p.get("empty_alive", 0) != 0;
   S->extreme = p.get("extreme", 0) != 0;
@@ -498,9 +511,9 @@ void run(const Plan& p) {
 
 void gen(Rng& r, Plan& p, const GenParams& gp) {
   gen_common(r, p, SB_HALF, false, 1500);
-  int subject = gp.mode >= 0 && gp.mode <= 5 ? gp.mode : (int)r.below(6);
+  int subject = gp.mode >= 0 && gp.mode <= 6 ? gp.mode : (int)r.below(7);
   if (gp.mode == 7 || gp.mode == 9) subject = r.chance(1, 2) ? S_MAXER : S_MINER;
-  if (gp.mode == 8) subject = r.chance(1, 2) ? S_ETL : S_CETL;
+  if (gp.mode == 8) subject = r.chance(1, 3) ? S_ETL : r.chance(1, 2) ? S_ETLL : S_CETL;
   p.cfg["subject"] = subject;
   p.cfg["maxer_reader"] = gp.mode == 7;
   p.cfg["empty_alive"] = gp.mode == 8;
